@@ -63,6 +63,9 @@ def pack_int(afi: AFI, integer: int) -> bytes:
     return b''.join(bytes([(integer >> (offset * 8)) & 0xFF]) for offset in range(IP.length(afi) - 1, -1, -1))
 
 
+# the most specific routes one "split" may expand a route into: 2^16
+MAX_SPLIT_BITS = 16
+
 class ParseStaticRoute(Section):
     # Schema definition for static route attributes
     schema = Container(
@@ -361,6 +364,15 @@ class ParseStaticRoute(Section):
             # Create immutable NLRI from settings
             nlri = nlri_class.from_settings(settings)
             route = Route(nlri, attributes, nexthop=settings.nexthop)
+
+            # same check as the one line form: an announce which can not be sent is refused here
+            if settings.action == Action.ANNOUNCE:
+                from exabgp.bgp.message.update.collection import validate_announce_nlri
+
+                problem = validate_announce_nlri(nlri, settings.nexthop)
+                if problem:
+                    return self.error.set(problem)
+
             self.scope.append_route(route)
 
         # Process routes (from either nested syntax or flat syntax)
@@ -474,6 +486,14 @@ class ParseStaticRoute(Section):
         if mask >= cut:
             yield last
             return
+
+        if cut > nlri.afi.mask():
+            raise ValueError(f'split /{cut} is longer than an {nlri.afi} address')
+        if cut - mask > MAX_SPLIT_BITS:
+            raise ValueError(
+                f'split /{cut} of a /{mask} would generate {pow(2, cut - mask)} routes\n'
+                f'  At most {pow(2, MAX_SPLIT_BITS)} routes (/{mask + MAX_SPLIT_BITS}) can be generated from one route'
+            )
 
         # calculate the number of IP in the /<size> of the new route
         increment = pow(2, nlri.afi.mask() - cut)
